@@ -24,6 +24,13 @@ func c01Case(c *runner.Ctx) (docs []*model.MDoc, mode uint32, shape string) {
 	case c.Idx == 2 || c.Idx == 3:
 		sch := gen.GenSchema(r)
 		return gen.GenBatch(r, sch, 126+c.Idx, "blk", gen.DocOpts{Repeat: true}), gen.SmallModes[r.Intn(len(gen.SmallModes))], "block-edge"
+	case c.Idx%400 == 6: // more than 128 fields: two-byte field ids in locations
+		sch := gen.WideSchema(r, 140+r.Intn(200))
+		n := 60 + r.Intn(200)
+		return gen.WideBatch(r, sch, n, fmt.Sprintf("w%d", c.Idx)), gen.Mode(r, n), "wide"
+	case thorough && c.Idx%40000 == 7: // document numbers beyond 65535 (second roaring container)
+		docs, _ := gen.JumboBatch(r, 66000+r.Intn(3000), fmt.Sprintf("h%d", c.Idx))
+		return docs, []uint32{1025, 1024}[r.Intn(2)], "huge"
 	case c.Idx%400 == 4 || c.Idx%400 == 5:
 		n := 2200 + r.Intn(900)
 		if thorough && c.Idx%800 == 4 {
